@@ -29,8 +29,16 @@ if git -C "$WT" diff --name-only | grep -qv '^src/'; then res "patch touches fil
 ( cd "$WT" && cargo build --offline --bin git-ai --features test-support,verif-hooks --target-dir "$T" ) > /tmp/sw-confirm$LANE.build.log 2>&1 \
   || { res "does not compile (hooks on)"; tail -20 /tmp/sw-confirm$LANE.build.log; git -C "$WT" checkout -q -- .; exit 1; }
 mkdir -p /tmp/sw-bins/$id && cp "$T/debug/git-ai" /tmp/sw-bins/$id/git-ai
+if [ -f "$src/demo_test.rs" ]; then
+  # library-level demonstration: demo.sh takes a SOURCE TREE (copies demo_test.rs into tests/, runs it)
+  timeout 1800 bash "$src/demo.sh" "$WT" > /tmp/sw-bins/$id/demo.mut.out 2>&1; dm=$?
+  git -C "$WT" apply -R "$src/patch.diff"
+  timeout 1800 bash "$src/demo.sh" "$WT" > /tmp/sw-bins/$id/demo.base.out 2>&1; db=$?
+  git -C "$WT" apply "$src/patch.diff"; rm -rf "$WT-target"
+else
 timeout 600 bash "$src/demo.sh" /tmp/sw-bins/$id/git-ai > /tmp/sw-bins/$id/demo.mut.out 2>&1; dm=$?
 timeout 600 bash "$src/demo.sh" "$basebin" > /tmp/sw-bins/$id/demo.base.out 2>&1; db=$?
+fi
 suite="skipped"
 if [ "$nosuite" != "--no-suite" ]; then
   rm -f "$WT/target/nextest/pb/junit.xml"; ( cd "$WT" && CARGO_TARGET_DIR="$T" cargo nextest run --workspace --no-fail-fast --tool-config-file pb:/w/lib/nextest.toml --profile pb --test-threads 8 --offline ) > /tmp/sw-bins/$id/suite.log 2>&1
